@@ -6,12 +6,10 @@
 (* declared here (with Apalache type annotations) and WaitGroup is            *)
 (* INSTANCEd, so Init, Next, Add, WEnter ... below are WaitGroup's.           *)
 (*                                                                            *)
-(* Apalache (instances: every subset of five names, i.e. 0..5 waiters, any    *)
-(* Budget, any MaxCounter, both HelperLocked, unbounded counter):             *)
-(*   apalache-mc check --cinit=ConstInit5 --init=Init    --inv=IndInv --length=0 *)
-(*   apalache-mc check --cinit=ConstInit5 --init=IndInit --inv=IndInv --length=1 *)
-(*   apalache-mc check --cinit=ConstInit5 --init=IndInit --inv=StepInv --length=1 *)
+(* Apalache (parametric instances, unbounded integers): WaitGroupInd_apa.tla.  *)
 (* TLAPS (arbitrary Waiters): WaitGroupInd_proof.tla.                         *)
+(* TLC (cross-check on the reachable states of a small instance of the        *)
+(* unadapted original): TLC_WaitGroupInd.cfg.                                 *)
 (***************************************************************************)
 EXTENDS Integers, Sequences, FiniteSets
 
@@ -94,6 +92,8 @@ Consequences == /\ MutexExclusion /\ QueuedNotHolder
 (* (and the same step does not change the counter).                       *)
 StepInv == \A w \in Waiters :
              (pc[w] # "ret" /\ pc'[w] = "ret") => ((counter = 0 \/ done[w]) /\ counter' = counter)
+
+StepProp == [][StepInv]_vars
 
 (* The client may call Add with any integer, not only the Deltas the TLC models explore *)
 NextAny == Next \/ \E n \in Int : Add(n)
